@@ -29,6 +29,7 @@ KIND_MEMBERS = {
     "FC": ["FULLY_CONNECTED", "CONV_2D", "DEPTHWISE_CONV_2D"],
     "TCONV": ["CONV_2D_TRANSPOSE"],
     "BMM": ["BATCH_MATMUL"],
+    "BMMC": ["BATCH_MATMUL"],
     "EMB": ["EMBEDDING_LOOKUP"],
     "EW2": ["ADD", "MUL", "SUB"],
     "EW1": ["GELU", "RSQRT"],
@@ -53,10 +54,10 @@ CODE = {
     "SOFTMAX": B.SOFTMAX, "LOGISTIC": B.LOGISTIC, "TANH": B.TANH, "RELU": B.RELU, "ABS": B.ABS, "MAXIMUM": B.MAXIMUM, "MINIMUM": B.MINIMUM,
 }
 CODE2NAME = {v: k for k, v in CODE.items()}
-NAME2KIND = {n: k for k, ms in KIND_MEMBERS.items() for n in ms if k != "CONCAT3"}
+NAME2KIND = {n: k for k, ms in KIND_MEMBERS.items() for n in ms if k not in ("CONCAT3", "BMMC")}
 # operand signature per kind (roles); "x" = act or generic constant; "w|act" for BMM rhs
 KIND_SIG = {
-    "FC": ["act", "w", "b?"], "TCONV": ["aux", "w", "act", "b?"], "BMM": ["act", "w"], "EMB": ["aux", "w"],
+    "FC": ["act", "w", "b?"], "TCONV": ["aux", "w", "act", "b?"], "BMM": ["act", "w"], "BMMC": ["w", "act"], "EMB": ["aux", "w"],
     "EW2": ["x", "x"], "EW1": ["act"], "EW1A": ["act", "aux"], "SAMEIN0": ["act"], "SAMEIN1": ["act", "aux"],
     "SAMEIN3": ["act", "aux", "aux", "aux"], "SPLIT": ["aux", "act"], "CONCAT": ["x", "x"], "CONCAT3": ["x", "x", "x"], "FIXSL": ["act"],
     "FIXT": ["act"], "UNSUP": ["act"], "UNSUP2": ["x", "x"],
@@ -302,7 +303,7 @@ def _shapes(sub, codes):
       s = sh[acts[0]]
       sh[o["outs"][0]] = [s[0], s[2], s[1], s[3]]
     else:
-      if k in ("FC", "TCONV", "BMM") and sh[acts[0]][3] != 4:
+      if k in ("FC", "TCONV", "BMM", "BMMC") and sh[acts[0]][3] != 4:
         raise Unrealisable("channel dim")
       if code in ("TRANSPOSE",) and False:
         pass
@@ -363,6 +364,9 @@ def build(scn, seed=0, rng=None, const_fn=None, signatures=True, name_fn=None):
       elif k == "BMM":
         if role[ins[1]] == "w":
           setc(ins[1], [1, 2, 4, 4])
+      elif k == "BMMC":
+        # constant lhs [1, 2, w, w] x activation rhs [n, 2, w, 4] -> [n, 2, w, 4]
+        setc(ins[0], [1, 2, sh[ins[1]][2], sh[ins[1]][2]])
       elif k == "EMB":
         setc(ins[0], [4], i32([0, 2, 1, 4]), TT.INT32)
         setc(ins[1], [5, 4])
@@ -435,7 +439,7 @@ def build(scn, seed=0, rng=None, const_fn=None, signatures=True, name_fn=None):
         # the constant rhs is square in its last two dimensions, so it can be used transposed (adj_y) or not
         # (chosen per weight tensor, so that operators sharing one weight use it the same way)
         # and independent of the subgraph's position, so that a subgraph is built identically inside a pair and alone)
-        adjy = bool((seed + (tbuf[ins[1]] or ins[1])) % 2)
+        adjy = bool((seed + (tbuf[ins[1]] or ins[1])) % 2) and o["kind"] != "BMMC"
         info.setdefault("bmm_adjy", {})["%d,%d" % (si, oi)] = adjy
         g.op(sg, bc, ins, outs, opt(S.BatchMatMulOptionsT, adjX=False, adjY=adjy), BO.BatchMatMulOptions)
       elif code == "AVERAGE_POOL_2D":
